@@ -144,7 +144,7 @@ impl Inscription {
 
     if encoding.is_some() {
       ensure! {
-        len / compressed.len() <= MAX_PROPERTIES_COMPRESSION_RATIO,
+        len <= compressed.len().saturating_mul(MAX_PROPERTIES_COMPRESSION_RATIO),
         "property compression over {MAX_PROPERTIES_COMPRESSION_RATIO}:1",
       }
     }
